@@ -49,7 +49,7 @@ RuleNames == {
     "C08.SilentAfterEnd", "C08.SlotFreed", "C08.EndsInTime",
     "C08.LimitReusable",
     "C10.NoPanic", "C10.NoBugError", "C10.BoundedBuffers",
-    "C12.KeyUnique", "C12.LimitRespected", "C12.TableAgrees", "C12.RouteAgrees", "C12.DeliverToNamed", "C12.NoEviction",
+    "C12.KeyUnique", "C12.LimitRespected", "C12.TableAgrees", "C12.RouteAgrees", "C12.DeliverToNamed", "C12.NoEviction", "C12.DeadCleanup",
     "C13.AcceptFifo", "C13.BacklogBound", "C13.RefusedOnlyWhenFull", "C13.ExcessRefused", "C13.ResetMatches",
     "C13.AcceptReturnsMatched", "C13.AcceptCallOrder", "C13.PairOnce", "C13.ReleaseOnAbandon",
     "C18.NagleHold", "C18.NoHoldWhenOff", "C18.NagleDrain",
@@ -606,6 +606,10 @@ Tab(r) ==
             \* C12 "attempts beyond it fail or wait, they do not evict or corrupt existing ones": an entry is removed
             \* only by its own connection's end (or because nobody took the freshly created stream)
             <<"C12.NoEviction", w = "stream_remove" /\ Live(ek), ~Live(ek) \/ eps[ek].ended>>,
+            \* the other removal path (a datagram found the entry's stream gone): same condition.  The stream's own
+            \* "ended" notification is then still queued and must not remove a newer entry under the same key
+            \* (MCSocket.tla, variant "stale_shutdown"; that removal is a "stream_remove" judged by the rule above)
+            <<"C12.DeadCleanup", w = "stream_remove_dead" /\ Live(ek), ~Live(ek) \/ eps[ek].ended>>,
             <<"C13.BacklogBound", Has(r, "syns"), R_C13_BacklogBound(r.syns, meta.backlog)>>,
             <<"C13.RefusedOnlyWhenFull", w = "syn_refused", R_C13_RefusedOnlyWhenFull(so, meta.backlog)>>,
             <<"C13.ExcessRefused", w = "syn_refused", TRUE>>,
